@@ -597,12 +597,12 @@ def beyond_cases(args):
     out = []
     for k in range(n_cases):
         org = rnd.choice((0x8000, 40000, 0x6000, 0xC000))
-        prog = {}
+        prog, sites = {}, []
         if rnd.random() < 0.6:
             mem, eoff = gen_structured(rnd, org)
         else:
             prog = {8: 1} if rnd.random() < 0.5 else {n: rnd.choice((1, 2)) for n in rnd.sample(range(0, 64, 8), rnd.randrange(1, 3))}
-            mem, eoff, _ = gen_rst_program(rnd, org, prog)
+            mem, eoff, sites = gen_rst_program(rnd, org, prog)
         size = len(mem)
         full = [0] * 65536
         full[org:org + size] = mem
@@ -640,6 +640,8 @@ def beyond_cases(args):
         c = drive_out(sub, k, binf, args_, 1, start, end, mapaddrs, fmt, full, 'beyond', org, mem, rstcfg)
         c['map_outside'] = outside
         c['end_is_target'] = 1 if end in targets else 0
+        if prog:
+            rst_stats(c, sites, prog)       # (RST arguments that sna2ctl is not told about: an input class with a key of its own)
         out.append(c)
     return out
 
